@@ -437,11 +437,22 @@ func writeEvidence(id, tier string, seed int, spec *CheckSpec, runs []HarnessRun
 		for k, v := range hr.AssertReach {
 			reach[hr.Name+"/"+k] = v
 		}
-		harnesses = append(harnesses, map[string]interface{}{
+		hm := map[string]interface{}{
 			"harness": hr.Name, "package": hr.Pkg, "bounds": runs[i].Params, "feasible_paths": hr.Paths, "outcomes": hr.Outcomes,
 			"ssa_instructions": hr.Steps, "assertions_reached": len(hr.AssertReach), "wall_s": round2(hr.WallS), "note": runs[i].Note,
 			"sat_answers_found_under_narrowed_ranges_after_unknown": hr.Narrowed,
-		})
+		}
+		// vNote verdicts (stronger-than-the-property statements such as inductiveness): recorded, never reported
+		notes := map[string]int{}
+		for l, n := range hr.Leads {
+			if strings.HasPrefix(l, "note:") {
+				notes[strings.TrimPrefix(l, "note:")] += n
+			}
+		}
+		if len(notes) > 0 {
+			hm["notes"] = notes
+		}
+		harnesses = append(harnesses, hm)
 	}
 	for _, r := range reports {
 		samples = append(samples, map[string]interface{}{
